@@ -247,7 +247,7 @@ SCOPE_TABLE = {
 }
 
 
-@rule("SCOPE", ["C21", "C02"], "constructs with a body bind their variables in a scope created for that construct (let binds in the current scope)")
+@rule("SCOPE", ["C21", "C02", "C35"], "constructs with a body bind their variables in a scope created for that construct (let binds in the current scope)")
 def scope(ctx, r):
     items = ctx.file_items(RES)
     if items is None:
